@@ -193,15 +193,16 @@ type snapRec struct {
 }
 
 type eng struct {
-	db     *statedb.DB
-	tabs   []statedb.RWTable[*Obj]
-	wtxn   statedb.WriteTxn
-	locked map[int]bool
-	snaps  map[int]*snapRec
-	order  []int // snapshot ids in creation order
-	iters  map[int]*iterState
-	inits  map[string]func(statedb.WriteTxn)
-	initW  map[int]<-chan struct{} // last observed init watch per table (oracle)
+	db       *statedb.DB
+	tabs     []statedb.RWTable[*Obj]
+	wtxn     statedb.WriteTxn
+	finished []statedb.WriteTxn // handles of finished transactions (the last few)
+	locked   map[int]bool
+	snaps    map[int]*snapRec
+	order    []int // snapshot ids in creation order
+	iters    map[int]*iterState
+	inits    map[string]func(statedb.WriteTxn)
+	initW    map[int]<-chan struct{} // last observed init watch per table (oracle)
 
 	gcAt   atomic.Value // "idle" | "gate1" | "gate2"
 	gate1  chan struct{}
@@ -838,6 +839,7 @@ func (e *eng) Op(f []string, line string, out *hx.Out) {
 			return
 		}
 		rtxn := e.wtxn.Commit()
+		e.finished = append(e.finished, e.wtxn)
 		e.wtxn = nil
 		e.ref.commit()
 		sid := atoi(f[1])
@@ -866,6 +868,7 @@ func (e *eng) Op(f []string, line string, out *hx.Out) {
 		}
 		before := e.dump(e.db.ReadTxn())
 		e.wtxn.Abort()
+		e.finished = append(e.finished, e.wtxn)
 		e.wtxn = nil
 		e.ref.abort()
 		if d := e.dump(e.db.ReadTxn()); d != before {
@@ -874,6 +877,17 @@ func (e *eng) Op(f []string, line string, out *hx.Out) {
 		e.pendingIW = nil
 		if b := e.watchOracle("abort"); b != "" {
 			bad = b
+		}
+		emit("M:*", "ok")
+	case "late":
+		// Abort / Commit on the handles of transactions that have already finished (a deferred Abort after a
+		// Commit is the documented idiom): no effect on anything, in particular not on the transaction open now
+		for _, w := range e.finished {
+			if f[1] == "commit" {
+				w.Commit()
+			} else {
+				w.Abort()
+			}
 		}
 		emit("M:*", "ok")
 	case "snap":
